@@ -9,7 +9,7 @@ from props.C06 import describe, rules
 
 REQUIRED_THEOREMS = ['Usid.C18.shape_type_attrs', 'Usid.C18.fresh_layout', 'Usid.C18.idempotent_keeps_contents',
                      'Usid.C18.occupied_refused', 'Usid.C18.others_untouched']
-RULE = ('generator datasets (chunked / gzip-compressed or neither) x requested dtypes {float32, complex64, compound} x '
+RULE = ('[also: occupants of the same kind but twice as wide, of transposed shape; new_attrs left at its default; the element type given as a string / np.dtype; the File object of another file as destination; the returned object and all four links observed] generator datasets (chunked / gzip-compressed or neither) x requested dtypes {float32, complex64, compound} x '
         'destinations {same group, other group, other file} x names with and without "-" x sequences of 1-3 calls with '
         'data written in between, x prior occupants of the name (compatible dataset, dataset of another shape/dtype, a '
         'group); non-trivial = a repeated call or a prior occupant')
@@ -33,8 +33,16 @@ def generate(seed, tier):
                           'wrote': rng.random() < 0.6})
         cases.append({'ds': ds, 'layout': rng.choice(['plain', 'chunked', 'gzip']),
                       'dest': rng.choice(['same', 'same', 'other_group', 'other_file']),
-                      'occupant': rng.choice([None, None, None, 'compatible', 'other_shape', 'other_dtype', 'group']),
-                      'calls': calls})
+                      'occupant': rng.choice([None, None, None, 'compatible', 'other_shape', 'other_dtype', 'group',
+                                              'wider_dtype', 'transposed']),
+                      'calls': calls,
+                      # new_attrs left at its default; the element type spelled as a string / np.dtype; the destination of
+                      # another file being the File object itself
+                      'attrs_default': rng.random() < 0.25, 'dtype_as': rng.choice(['class', 'class', 'str', 'npdtype']),
+                      'file_dest': rng.random() < 0.4})
+        if cases[-1]['attrs_default']:
+            for c in cases[-1]['calls']:
+                c['new_attrs'] = {}
     return cases
 
 
@@ -76,13 +84,17 @@ def run_impl(inp, work):
         src = gen.write_usid(g, ds, **_layout(inp))
         src.attrs['user_attr'] = 7
         src_anc = (f.filename, f[src.attrs['Position_Indices']].name)
-        dest = {'same': g, 'other_group': f.create_group('H'), 'other_file': fo.create_group('X') if fo else None}[inp['dest']]
+        dest = {'same': g, 'other_group': f.create_group('H'),
+                'other_file': ((fo if inp.get('file_dest') else fo.create_group('X')) if fo else None)}[inp['dest']]
         name0 = inp['calls'][0]['name'].replace('-', '_')
         if inp['occupant'] == 'group':
             dest.create_group(name0)
         elif inp['occupant']:
-            shp = (n, m) if inp['occupant'] != 'other_shape' else (n + 1, m)
+            shp = {'other_shape': (n + 1, m), 'transposed': ((m, n) if m != n else (n * m, 1))}.get(inp['occupant'], (n, m))
             dt = DTYPES[inp['calls'][0]['dtype']] if inp['occupant'] != 'other_dtype' else np.int16
+            if inp['occupant'] == 'wider_dtype':      # the same kind of number, twice as wide
+                dt = {'f4': np.float64, 'c8': np.complex128,
+                      'compound': np.dtype([('a', np.float64), ('b', np.int64)])}[inp['calls'][0]['dtype']]
             occ = dest.create_dataset(name0, shape=shp, dtype=dt)
             if inp['occupant'] == 'compatible':
                 occ[0, 0] = 1 if not np.dtype(dt).names else (1.0, 1)
@@ -96,11 +108,20 @@ def run_impl(inp, work):
         others_before = others()
         for c in inp['calls']:
             kw = {'h5_group': dest} if inp['dest'] != 'same' else {}
-            r = call(create_empty_dataset, src, DTYPES[c['dtype']], c['name'], new_attrs=dict(c['new_attrs']), **kw)
+            if not inp.get('attrs_default'):
+                kw['new_attrs'] = dict(c['new_attrs'])
+            dt_arg = DTYPES[c['dtype']]
+            if c['dtype'] != 'compound' and inp.get('dtype_as') == 'str':
+                dt_arg = {'f4': 'float32', 'c8': 'complex64'}[c['dtype']]
+            elif inp.get('dtype_as') == 'npdtype':
+                dt_arg = np.dtype(dt_arg)
+            r = call(create_empty_dataset, src, dt_arg, c['name'], **kw)
             if r[0] == 'err':
                 out['calls'].append({'err': r[1], 'cls': r[2]})
                 continue
             d = dest[c['name'].replace('-', '_')]
+            ret = r[1]
+            returned_ok = type(ret).__name__ == 'USIDataset' and ret.name == d.name and ret.file.filename == d.file.filename
             ff = d.file
             rec = _desc_dset(ff, d, src_anc)
             rec['is_main'] = rules(describe(ff, d))
@@ -109,6 +130,11 @@ def run_impl(inp, work):
             rec['src_vals_ok'] = all(k in d.attrs and d.attrs[k] == src.attrs[k]
                                      for k in ('quantity', 'units', 'user_attr') if k not in c['new_attrs'])
             rec['in_dest'] = d.parent.name == dest.name and d.file.filename == dest.file.filename
+            rec['returned_ok'] = bool(returned_ok)
+            # all four links, not just the first
+            rec['all_links'] = [((ff[d.attrs[k]].file.filename, ff[d.attrs[k]].name) ==
+                                 (f.filename, f[src.attrs[k]].name)) if k in d.attrs else None
+                                for k in ('Position_Indices', 'Position_Values', 'Spectroscopic_Indices', 'Spectroscopic_Values')]
             if rec['links'] == 'copies':
                 # faithful copies: same contents and labels as the source's ancillaries
                 ok = True
@@ -152,6 +178,10 @@ def oracle(inp, obs):
             fails.append('shape-type: returned dataset has shape %s / dtype %s (%s)' % (rec['shape'], rec['dtype'], what))
         if not rec['in_dest']:
             fails.append('destination: dataset was not created in the requested destination (%s)' % what)
+        if rec.get('returned_ok') is False:
+            fails.append('returned-object: the call did not return the USIDataset of the dataset in the destination (%s)' % what)
+        if inp['dest'] != 'other_file' and 'all_links' in rec and rec['all_links'] != [True] * 4:
+            fails.append('links-all: not every ancillary link is the source\'s own dataset: %s (%s)' % (rec['all_links'], what))
         if not set(src['attrs']) <= set(rec['attrs']) or not set(c['new_attrs']) <= set(rec['attrs']):
             fails.append('attrs: descriptive / new attributes missing: %s (%s)' % (rec['attrs'], what))
         if not rec['new_vals_ok'] or not rec['src_vals_ok']:
@@ -197,7 +227,10 @@ def model_requests_obs(inp, obs):
         shp = list(src['shape'])
         if inp['occupant'] == 'other_shape':
             shp[0] += 1
-        dt = inp['calls'][0]['dtype'] if inp['occupant'] != 'other_dtype' else 'int16'
+        elif inp['occupant'] == 'transposed':
+            shp = [shp[1], shp[0]] if shp[0] != shp[1] else [shp[0] * shp[1], 1]
+        dt = inp['calls'][0]['dtype'] if inp['occupant'] not in ('other_dtype', 'wider_dtype') else \
+            ('int16' if inp['occupant'] == 'other_dtype' else 'wide-' + inp['calls'][0]['dtype'])
         group.append({'name': inp['calls'][0]['name'].replace('-', '_'), 'kind': 'dataset',
                       'dset': {'shape': shp, 'dtype': dt, 'chunks': None, 'compression': None, 'attrs': [],
                                'links': 'none', 'zero': inp['occupant'] != 'compatible'}})
@@ -225,7 +258,7 @@ def model_compare(inp, obs, resp):
 
 def distribution(cases, obs):
     d = {'same': 0, 'other_group': 0, 'other_file': 0, 'repeat_calls': 0, 'errors': 0}
-    for k in (None, 'compatible', 'other_shape', 'other_dtype', 'group'):
+    for k in (None, 'compatible', 'other_shape', 'other_dtype', 'group', 'wider_dtype', 'transposed'):
         d['occupant:%s' % k] = 0
     for c, o in zip(cases, obs):
         d[c['dest']] += 1
